@@ -61,7 +61,10 @@ class BaseGopherProtocol:
         """Normalize slashes in the selector.  Make sure it starts
         with a slash and does not end with one.  If it is a root directory
         request, make sure it is exactly '/'.  Returns result."""
-        if len(selector) and selector[-1] == "/":
+        # "<dir>//" must not become "<dir>/": a directory listed under that
+        # spelling builds child selectors containing "//", which the selector
+        # filter refuses, and the empty listing lands in <dir>'s cache file.
+        while len(selector) and selector[-1] == "/":
             selector = selector[0:-1]
         if len(selector) == 0 or selector[0] != "/":
             selector = "/" + selector
